@@ -89,3 +89,19 @@ CHECKS["C02"] = {
         {"name": "pipeline", "pkg": "pkg/object/pipeline", "test": "TestVerifC02"},
     ],
 }
+
+CHECKS["C14"] = {
+    "level": "model_checking",
+    "technique": "explicit-state model checking (BFS over subscription histories on the real broker objects, reference = MQTT 3.1.1 matching over the live set, structural no-residue differential)",
+    "level_text": "every history of SUBSCRIBE / UNSUBSCRIBE (single, mixed with a malformed filter, never-subscribed) / disconnect / reconnect by two clients over 10 filters "
+                  "(+, #, empty levels) and 4 malformed filters up to the depth bound is driven through the real Client.processPacket / closeAndDelSession; after every operation "
+                  "all 39 topic names are routed by the real TopicManager and compared with the reference; the trie must equal the trie built from scratch from the live set",
+    "level_note": "finite alphabet; '$' topics excluded; canonical state = live subscription set + connection flags (a residue is itself a violation, so merged states have equal futures)",
+    "rule": "BFS split into one job per first operation; states deduplicated by canonical live set; distinct_nontrivial = distinct operation outcome classes",
+    "explanation": "states = distinct canonical states reached; transitions = operations applied to fresh real objects after replaying the shortest path; each transition checks 39 topics x 2 clients",
+    "bounds": {"quick": "histories of <=3 operations (78-operation alphabet)", "thorough": "histories of <=4 operations"},
+    "assumptions": ["session persistence (store goroutines) is not observed here (C16)"],
+    "units": [
+        {"name": "mqttproxy", "pkg": "pkg/object/mqttproxy", "test": "TestVerifC14"},
+    ],
+}
